@@ -132,7 +132,7 @@ func c12Exec(t *testing.T, root string, sc c12Scenario, only int, prefix []int) 
 func TestC12(t *testing.T) {
 	r := NewReporter(t)
 	defer r.Done()
-	r.Rule("10 scenarios of 2-3 connections whose requests collide (same plain file, same generated image across member boundaries, CD images of different sector size, two directory enumerations, uploads into sibling files, churn, a client connecting while another one's teardown is running); scheduling points = every connection read/write/close, every accept and every leaf filesystem operation of the server goroutines; all interleavings with <= 2 (quick) / <= 3 (thorough; 2 for the three-client scenarios) preemptions; oracle: each client's response stream equals the stream of its script run alone, connection closed, handle ledger empty, uploaded files exact; distinct by schedule (choice sequence)")
+	r.Rule("11 scenarios of 2-3 connections whose requests collide (same plain file, same generated image across member boundaries, CD images of different sector size, two directory enumerations, uploads into sibling files, churn, a client connecting while another one's teardown is running, an uploader next to a client whose mutations are refused); scheduling points = every connection read/write/close, every accept and every leaf filesystem operation of the server goroutines; all interleavings with <= 2 (quick) / <= 3 (thorough; 2 for the three-client scenarios) preemptions; oracle: each client's response stream equals the stream of its script run alone, connection closed, handle ledger empty, uploaded files exact; distinct by schedule (choice sequence)")
 	w, _ := buildC02World(t, r)
 	defer w.Cleanup()
 	mkCDImage(w.Root, cdImg{name: "cd2336.bin", sector: 2336, sig: "psx", size: 0x200000}, 3)
@@ -180,6 +180,11 @@ func TestC12(t *testing.T) {
 		{name: "reconnect-during-teardown", after: map[int]int{1: 0}, clients: [][]Req{
 			{mkReq(opOpenFile, "/plain/f131073.bin"), rdcReq(0, 70000), mkReq(opOpenDir, "/d"), noargReq(opReadDirEntry)},
 			{mkReq(opOpenFile, "/plain/f65536.bin"), rdReq(0, 100), mkReq(opOpenDir, "/k3"), noargReq(opReadDirEntry), rdcReq(100, 1000), cdReq(0, 1)}}},
+		// one client's refused requests (virtual paths cannot be written, existing directory, missing parent) must not
+		// change what another client is allowed to do
+		{name: "uploader-vs-refused-mutations", allow: true, reset: resetW, files: map[string][]byte{"w/a.bin": pa[:3000], "w/c.bin": []byte("second")}, clients: [][]Req{
+			{mkReq(opCreateFile, "/w/a.bin"), wrReq(pa[:3000]), mkReq(opMkdir, "/w/sub"), mkReq(opCreateFile, "/w/c.bin"), wrReq([]byte("second")), mkReq(opRmdir, "/w/sub")},
+			{mkReq(opCreateFile, "/***DVD***/game/x.bin"), mkReq(opMkdir, "/***PS3***/game/y"), mkReq(opCreateFile, "/nodir/z"), mkReq(opDeleteFile, "/***DVD***/game"), mkReq(opMkdir, "/plain"), mkReq(opStatFile, "/plain")}}},
 		{name: "churn", maxB: 2, clients: [][]Req{
 			{mkReq(opOpenFile, "/plain/f131073.bin"), rdcReq(0, 131073)},
 			{mkReq(opOpenFile, "/plain/f65536.bin"), rdcReq(0, 65536)},
